@@ -328,9 +328,14 @@ func transformFamily() ctwin.Family {
 		for i := range pts {
 			pts[i] = v3(float64(i)+0.5*float64(k), float64(i*i)-3, 0.25*float64(i))
 		}
-		T := trs.New(v3(1+float64(k), -2, 3), quaternion.FromTheta(0.7+float64(k), v3(1, 2, -3)), v3(2, 0.5+float64(k), 1.5))
-		f.Thunks = append(f.Thunks, ctwin.Thunk{Name: fmt.Sprintf("TRS %d: TransformArray/InPlace/Mesh.ApplyTRS on %d points, matrix inverse, boxes", k, n), Run: func() uint64 {
+		f.Thunks = append(f.Thunks, ctwin.Thunk{Name: fmt.Sprintf("TRS %d: constructors, TransformArray/InPlace/Mesh.ApplyTRS on %d points, matrix inverse, boxes", k, n), Run: func() uint64 {
 			h := newHasher()
+			// the constructors run inside the call too (FromTheta, trs.New, the single-component forms)
+			T := trs.New(v3(1+float64(k), -2, 3), quaternion.FromTheta(0.7+float64(k), v3(1, 2, -3)), v3(2, 0.5+float64(k), 1.5))
+			h.v3(trs.Position(v3(float64(k), 1, 2)).Transform(pts[0]))
+			h.v3(trs.Scale(v3(2, float64(k)+1, 0.5)).Transform(pts[0]))
+			h.v3(trs.Rotation(quaternion.FromTheta(-1.3*float64(k+1), v3(0, 1, float64(k)))).Transform(pts[0]))
+			h.v3(quaternion.FromTheta(2.5-float64(k), v3(1, -2, 3)).Multiply(quaternion.FromTheta(0.4*float64(k+1), v3(0, 0, 1))).Rotate(pts[1]))
 			for _, p := range T.TransformArray(pts) {
 				h.v3(p)
 			}
